@@ -414,3 +414,88 @@ func TestVerif_C29_Others(t *testing.T) {
 		}
 	})
 }
+
+// ---------------------------------------------------------------- large compressed requests
+
+var c29SizeClasses = []struct {
+	name  string
+	total int
+}{
+	{"1MiB-", 1<<20 - 4096}, {"1MiB+", 1<<20 + 4096}, {"4MiB-", 4<<20 - 4096}, {"4MiB+", 4<<20 + 4096},
+	{"16MiB-", 16<<20 - 4096}, {"16MiB+", 16<<20 + 4096}, {"32MiB-", 32<<20 - 4096}, {"32MiB+", 32<<20 + 4096},
+	{"64MiB-", 64<<20 - 4096}, {"64MiB+", 64<<20 + 4096},
+}
+
+// c29LargeRoundTrip builds a request of nstmts statements of highly
+// compressible SQL with the given total text size and sends it through
+// Marshal -> Command -> bytes -> Unmarshal -> UnmarshalSubCommand.
+func c29LargeRoundTrip(kind string, total, nstmts int, unit string) (compressed bool, sig, msg string) {
+	req := &proto.Request{Transaction: true}
+	per := total / nstmts
+	for i := 0; i < nstmts; i++ {
+		n := per
+		if i == nstmts-1 {
+			n = total - per*(nstmts-1)
+		}
+		req.Statements = append(req.Statements, &proto.Statement{Sql: strings.Repeat(unit, n/len(unit)+1)[:n]})
+	}
+	var msgIn Requester
+	var fresh pb.Message
+	var typ proto.Command_Type
+	switch kind {
+	case "execute":
+		msgIn, fresh, typ = &proto.ExecuteRequest{Request: req}, &proto.ExecuteRequest{}, proto.Command_COMMAND_TYPE_EXECUTE
+	case "query":
+		msgIn, fresh, typ = &proto.QueryRequest{Request: req, Level: proto.ConsistencyLevel_STRONG}, &proto.QueryRequest{}, proto.Command_COMMAND_TYPE_QUERY
+	default:
+		msgIn, fresh, typ = &proto.ExecuteQueryRequest{Request: req}, &proto.ExecuteQueryRequest{}, proto.Command_COMMAND_TYPE_EXECUTE_QUERY
+	}
+	b, compressed, err := NewRequestMarshaler().Marshal(msgIn)
+	if err != nil {
+		return compressed, "C29/marshal-error", err.Error()
+	}
+	entry, err := Marshal(&proto.Command{Type: typ, SubCommand: b, Compressed: compressed})
+	if err != nil {
+		return compressed, "C29/marshal-error", err.Error()
+	}
+	var got proto.Command
+	if err := Unmarshal(entry, &got); err != nil {
+		return compressed, "C29/unmarshal-error", err.Error()
+	}
+	if err := UnmarshalSubCommand(&got, fresh); err != nil {
+		return compressed, "C29/large-request-does-not-decode", fmt.Sprintf("UnmarshalSubCommand failed (compressed=%v, %d bytes of SQL): %v", compressed, total, err)
+	}
+	if !pb.Equal(fresh, msgIn) {
+		return compressed, "C29/roundtrip-differs", fmt.Sprintf("decoded request differs from the original (compressed=%v, %d bytes of SQL)", compressed, total)
+	}
+	return compressed, "", ""
+}
+
+func TestVerif_C29_Large(t *testing.T) {
+	rec := vstat.New(t, "C29", "large",
+		"compressed requests with total SQL size just below/above 1, 4, 16, 32 and 64 MiB (1-4 statements of repetitive SQL, Execute/Query/ExecuteQuery) round-tripped through Marshal -> Command -> UnmarshalSubCommand with proto.Equal; every run does the largest class once (any size cap below it shows there) plus rapid-drawn classes; non-trivial = the request was stored compressed; distinct by class, kind and statement count")
+	one := func(class int, kind string, nstmts int, unit string) string {
+		sc := c29SizeClasses[class]
+		compressed, sig, msg := c29LargeRoundTrip(kind, sc.total, nstmts, unit)
+		canon := fmt.Sprintf("size-class=%s kind=%s stmts=%d unit=%q", sc.name, kind, nstmts, unit)
+		rec.Case(compressed, canon)
+		rec.Sample(canon)
+		rec.Label("size-class=" + sc.name)
+		if sig != "" {
+			return rec.Violation(sig, "%s ;; case: %s", msg, canon)
+		}
+		return ""
+	}
+	if m := one(len(c29SizeClasses)-1, "execute", 2, "INSERT INTO foo(name) VALUES('fiona');\n"); m != "" {
+		t.Fatalf("%s", m)
+	}
+	rapid.Check(t, func(rt *rapid.T) {
+		class := rapid.IntRange(0, len(c29SizeClasses)-1).Draw(rt, "class")
+		kind := rapid.SampledFrom([]string{"execute", "query", "execute-query"}).Draw(rt, "kind")
+		n := rapid.IntRange(1, 4).Draw(rt, "nstmts")
+		unit := rapid.SampledFrom([]string{"INSERT INTO foo(name) VALUES('fiona');\n", "a", "SELECT 1; "}).Draw(rt, "unit")
+		if m := one(class, kind, n, unit); m != "" {
+			rt.Fatalf("%s", m)
+		}
+	})
+}
